@@ -368,7 +368,8 @@ def grid_construction(ctx, rule: str = "C08.id-template") -> None:
             ctx.rep.inconclusive(rule, name, "helper not found")
             continue
         ctx.rep.touch(g)
-        rets = [s.value for s in own_walk(g.node) if isinstance(s, ast.Return) and s.value is not None]
+        gv = ctx.fv(g)
+        rets = [gv.def_expr(n.ast.value, n.id)[0] for n in gv.return_nodes()]
         ok = False
         if len(rets) == 1:
             v = rets[0]
